@@ -432,7 +432,7 @@ func (st *sortTable) rangeAssume(t types.Type, x string, depth int) string {
 			return and(app("<=", intLit(lo), x), app("<=", x, intLit(hi)))
 		}
 		if u.Info()&types.IsString != 0 {
-			return app("<=", "0", app("gstr.len", x))
+			return and(app("<=", "0", app("gstr.len", x)), app("<=", app("gstr.len", x), maxSliceCap))
 		}
 	case *types.Slice:
 		return and(app("<=", "0", app("s.len", x)), app("<=", app("s.len", x), app("s.cap", x)), app("<=", "0", app("s.base", x)), app("<=", app("s.cap", x), maxSliceCap),
